@@ -64,6 +64,45 @@ def translate():
     return out.strip()
 
 
+# Constants the PROPERTY TEXTS name literally. Generated/Codes.v follows the source (so that a restructured but equal source still checks), which
+# means a changed constant would silently change model and specs alike; the values the properties themselves spell out are pinned here.
+PINNED = {
+    "BACKSPACE": (8, ["C04"], "BS yields Backspace"), "TABULATION": (9, ["C04", "C11", "C16"], "TAB yields Tab"),
+    "LINE_FEED": (10, ["C04", "C13"], "LF is a line terminator / becomes CR LF"), "CARRIAGE_RETURN": (13, ["C04", "C13"], "CR is a line terminator"),
+    "ESCAPE": (27, ["C04"], "ESC [ starts a CSI sequence"), "CSI_INTRO": (91, ["C04"], "ESC [ starts a CSI sequence"),
+    "CSI_FINAL_LO": (0x40, ["C04"], "a final byte (ECMA-48: 0x40..0x7E) ends the sequence"), "CSI_FINAL_HI": (0x7E, ["C04"], "a final byte (ECMA-48: 0x40..0x7E) ends the sequence"),
+    "KEY_UP": (65, ["C04", "C10"], "final A is Up"), "KEY_DOWN": (66, ["C04", "C10"], "final B is Down"),
+    "KEY_FORWARD": (67, ["C04", "C05"], "final C is Right"), "KEY_BACK": (68, ["C04", "C05"], "final D is Left"),
+    "MIN_PRINTABLE": (32, ["C04", "C17"], "every scalar from U+0020 upward is a character"),
+    "CRLF": ([13, 10], ["C13", "C01"], "each LF becomes CR LF"),
+    "HELP_CANDIDATE": (list(b"help"), ["C11"], "the built-in `help` is a completion candidate"),
+    "HELP_NAME": (list(b"help"), ["C12", "C16", "C01"], "a line `help` / `help <command>` is a help request"),
+    "HELP_LONG": (list(b"help"), ["C12", "C16", "C01"], "--help is a help request"), "HELP_SHORT": (104, ["C12", "C16", "C17", "C01"], "-h is a help request"),
+    "ERR_PREFIX": (list(b"error: "), ["C09", "C12"], "errors are reported as a single `error:` line"),
+    "ERR_UNKNOWN": (list(b"unknown command"), ["C12"], "`error: unknown command`"),
+    "HELP_ERR_1": (list(b"error: "), ["C12"], "asking about an unknown or hidden command prints `error: unknown command`"),
+    "HELP_ERR_2": (list(b"unknown command"), ["C12"], "asking about an unknown or hidden command prints `error: unknown command`"),
+}
+
+
+def pinned_mismatches(pid):
+    """[(name, found, wanted, phrase)] for the constants of Generated/Codes.v that the text of property pid names and that differ"""
+    txt = open(os.path.join(COQ, "Generated", "Codes.v"), encoding="utf-8").read()
+    out = []
+    for name, (want, pids, phrase) in PINNED.items():
+        if pid not in pids:
+            continue
+        m = re.search(r"Definition %s : (?:N|list N) := ([^.]*)\." % name, txt)
+        if not m:
+            out.append((name, None, want, phrase))
+            continue
+        v = m.group(1).strip()
+        found = [int(x) for x in v.strip("[]").split(";") if x.strip()] if v.startswith("[") else int(v)
+        if found != want:
+            out.append((name, found, want, phrase))
+    return out
+
+
 def coq_makefile():
     mk = os.path.join(COQ, "Makefile")
     cp = os.path.join(COQ, "_CoqProject")
@@ -354,6 +393,7 @@ class Check:
     def proofs(self):
         try:
             self.notes += [l for l in translate().splitlines() if "FALLBACK" in l]
+            self.pins()
             thorough = self.tier == "thorough"
             self.theorems, self.discharged, self.axioms = coq_build_property(self.pid, clean=False)
             if thorough:
@@ -362,6 +402,18 @@ class Check:
             self.broken(b)
             return False
         return True
+
+    def pins(self):
+        """the constants the property text spells out must have the spelled-out value in the source (Generated/Codes.v, just regenerated)"""
+        ms = pinned_mismatches(self.pid)
+        for name, found, want, phrase in ms:
+            show = lambda v: v if not isinstance(v, list) else bytes(v).decode("utf-8", "replace")
+            self.report("pinned-constants", "oracle",
+                        "constant %s of the source is %r; the property text requires %r (%s)" % (name, show(found), show(want), phrase),
+                        {"case": "const:" + name, "constant": name, "found_in_source": found, "required_by_property": want, "phrase": phrase,
+                         "how_to_see": "gen/translate_codes.py prints the value it reads from embedded-cli/src; any session using that key or message shows it"})
+        self.count("pinned-constants", len([1 for v in PINNED.values() if self.pid in v[1]]), 0, exhaustive=True)
+        return not ms
 
     def broken(self, b):
         path = self.write_replay("broken", {"broken": b.what, "detail": b.detail[-4000:]})
